@@ -56,8 +56,21 @@ Fixpoint insert_u (x : nat) (l : list nat) : list nat :=
   end.
 Definition usort (l : list nat) : list nat := fold_right insert_u [] l.
 
-(** ** verde.utils.partition_by_sum (array of naturals, parts >= 1) *)
+(** ** verde.utils.partition_by_sum (array of naturals, parts >= 1)
+    the code in /repo (after the repair 18a2287): split point j is where the
+    cumulative sum crosses (j * total) // parts *)
 Definition partition_by_sum (array : list nat) (parts : nat) : option (list nat) :=
+  let size := length array in
+  if size <? parts then None else
+  let cs := cumsum array in
+  let ideal_cumsum := map (fun j => (j * last cs 0) / parts) (seq 1 (parts - 1)) in
+  let indices := map (searchsorted_right cs) ideal_cumsum in
+  if negb (nodupb indices) || existsb (Nat.eqb 0) indices || existsb (Nat.eqb size) indices
+  then None else Some indices.
+
+(** the pinned (unrepaired) code: multiples of total // parts, so that the
+    remainder total mod parts piles up in the last part; used only to refute it *)
+Definition partition_by_sum_pinned (array : list nat) (parts : nat) : option (list nat) :=
   let size := length array in
   if size <? parts then None else
   let cs := cumsum array in
@@ -220,14 +233,10 @@ Definition split_ok (labels : list nat) (s : list nat * list nat) : bool :=
 Definition n_blocks_of (labels : list nat) (points : list nat) : nat :=
   length (usort (map (lab labels) points)).
 
-(** |p - total//k| < one block's population (the largest), the last fold
-    also taking the remainder total mod k *)
-Fixpoint balance_ok (ideal r M : nat) (ps : list nat) : bool :=
-  match ps with
-  | [] => true
-  | [p] => (ideal <? p + M) && (p <? ideal + r + M)
-  | p :: t => (ideal <? p + M) && (p <? ideal + M) && balance_ok ideal r M t
-  end.
+(** every p differs from total/k (the rational) by less than M, one block's
+    population (the largest):  | p - total/k | < M,  cross-multiplied by k *)
+Definition balance_ok (total k M : nat) (ps : list nat) : bool :=
+  forallb (fun p => (k * p <? total + k * M) && (total <? k * p + k * M)) ps.
 
 Definition spread_le_1 (l : list nat) : bool :=
   forallb (fun a => forallb (fun b => a <=? S b) l) l.
@@ -248,7 +257,7 @@ Definition kfold_holds (labels : list nat) (n_splits : nat) (balance : bool)
       is_perm_seq (concat (map snd splits)) n &&
       (if warned then balance else true) &&
       (if balance && negb warned
-       then balance_ok (n / n_splits) (n mod n_splits) (list_max (map (count labels) ids))
+       then balance_ok n n_splits (list_max (map (count labels) ids))
                        (map (fun s => length (snd s)) splits)
        else spread_le_1 (map (fun s => n_blocks_of labels (snd s)) splits))
   end.
@@ -277,7 +286,7 @@ Definition pbs_holds (array : list nat) (parts : nat) (obs : option (list nat)) 
       (parts <=? length array) && (S (length idx) =? parts) &&
       strictly_inside (length array) idx &&
       (if 2 <=? parts
-       then balance_ok (list_sum array / parts) (list_sum array mod parts) (list_max array)
+       then balance_ok (list_sum array) parts (list_max array)
                        (map (@list_sum) (np_split array idx))
        else true)
   end.
